@@ -1519,6 +1519,23 @@ static int op_idle(int argc, char **argv, FILE *out) {
     if (argc != 0 || !world_ready)
         return 0;
     fputs("idle", out);
+    {
+        /* nothing is going on: no thread is inside any function that takes the lock of a request slot, so every one of them is free */
+        struct list_node *e;
+        for (e = list_first(srvconfs); e; e = list_next(e)) {
+            struct clsrvconf *c = (struct clsrvconf *)e->data;
+            int i;
+            if (!c->servers || !c->servers->requests)
+                continue;
+            for (i = 0; i < MAX_REQUESTS; i++)
+                if (c->servers->requests[i].lock) {
+                    if ((pthread_mutex_trylock)(c->servers->requests[i].lock))
+                        fprintf(out, " heldlock:%s:%d", c->name, i);
+                    else
+                        (pthread_mutex_unlock)(c->servers->requests[i].lock);
+                }
+        }
+    }
     put_tail(out);
     return 1;
 }
